@@ -43,6 +43,21 @@ Theorem c05_unescape_count : forall w r st n st', unescape w r st = JOk (n, st')
 Proof. intros w r st n st' H. unfold unescape in H. apply unesc_count in H. destruct H as [H|H]; [subst; apply Nat.le_0_l|]. destruct H as [_ H]. exact H. Qed.
 Print Assumptions c05_unescape_count.
 
+(* the whitespace set of TrimLeft, probed unit by unit from the current headers for every width
+   (tools/gentables_json.cpp), is exactly {TAB, LF, CR, space} and is what the model's is_ws decides:
+   a change of that set in StringUtils.hpp breaks this obligation *)
+Theorem c05_whitespace_set_exact :
+  ws_probe_c8 = [9; 10; 13; 32] /\ ws_probe_c16 = [9; 10; 13; 32] /\ ws_probe_c32 = [9; 10; 13; 32] /\
+  ws_probe_wc = [9; 10; 13; 32] /\ forall c, is_ws c = true <-> In c ws_probe_c8.
+Proof. destruct ws_set_exact as (H1 & H2 & H3 & H4). repeat split; auto; apply is_ws_probe. Qed.
+Print Assumptions c05_whitespace_set_exact.
+
+(* wchar_t is four bytes on the modelled platform: width 3 (wchar_t) takes the UTF-32 paths of
+   width 2 (char32_t); all theorems above are for every width *)
+Theorem c05_wchar_is_the_four_byte_path : jc_sizeof_wchar = 4 /\ cu_bits 3 = cu_bits 2 /\ forall c, to_utf 3 c = to_utf 2 c.
+Proof. exact wchar_is_utf32. Qed.
+Print Assumptions c05_wchar_is_the_four_byte_path.
+
 (* non-vacuity: the error outcomes exist -- the keyword matcher without its terminator test
    (before D62) runs off the literal, and a read at the end of the text is an error *)
 Example c05_oob_is_expressible : kw_loop [] [0] = JErr (OOB 1216) /\ rd 1178 [] = JErr (OOB 1178) /\ adv 1180 [] = JErr (Past 1180).
